@@ -295,6 +295,8 @@ pub fn compile(
 struct Attribute {
     name: Token,
     arguments: Vec<Token>,
+    /// Position of the attribute in its list, so that errors are reported in source order.
+    order: usize,
 }
 
 struct Parser<'a> {
@@ -660,7 +662,11 @@ impl<'a> Parser<'a> {
             }
         }
 
-        Some(Attribute { name, arguments })
+        Some(Attribute {
+            name,
+            arguments,
+            order: 0,
+        })
     }
 
     fn attributes_declaration(&mut self) {
@@ -672,7 +678,8 @@ impl<'a> Parser<'a> {
         }
         let mut attributes = HashMap::new();
 
-        while let Some(attribute) = self.attribute() {
+        while let Some(mut attribute) = self.attribute() {
+            attribute.order = attributes.len();
             if attributes
                 .insert(attribute.name.source.clone(), attribute)
                 .is_some()
@@ -1376,11 +1383,12 @@ impl<'a> Parser<'a> {
     }
 
     fn check_supported_attributes(&mut self, kind: &str) {
-        for attr in self.attributes.values() {
+        let mut unsupported: Vec<Attribute> = self.attributes.drain().map(|(_, a)| a).collect();
+        unsupported.sort_by_key(|attr| attr.order);
+        for attr in unsupported {
             let msg = format!("Unsupported {} attribute '{}'.", kind, attr.name.source);
-            self.error_at(attr.name.clone(), &msg);
+            self.error_at(attr.name, &msg);
         }
-        self.attributes.clear();
         self.attribute_opener = None;
     }
 
